@@ -40,14 +40,17 @@ def run(ctx):
     ctx.build()
     # ---------------- layer 1: the guard alone
     dot = ctx.path("txguard.dot")
-    cfg = "MCTxGuard_quick.cfg" if ctx.quick() else "MCTxGuard_full3.cfg"
-    r = ctx.tlc_exhaustive("MCTxGuard", cfg, timeout=900, dump=dot, coverage=not ctx.quick())
-    if not ctx.quick() and r.get("zero_cov"):
-        raise vlib.Broken("vacuity: actions never taken in %s: %s" % (cfg, r["zero_cov"]))
+    cfg = "MCTxGuard_quick.cfg" if ctx.quick() else "MCTxGuard_mid3.cfg"        # the graph that is replayed edge by edge
+    r = ctx.tlc_exhaustive("MCTxGuard", cfg, timeout=900, dump=dot)
+    if not ctx.quick():
+        r = ctx.tlc_exhaustive("MCTxGuard", "MCTxGuard_full3.cfg", timeout=1500, coverage=True)   # both root times, design side only
+        if r.get("zero_cov"):
+            raise vlib.Broken("vacuity: actions never taken in MCTxGuard_full3.cfg: %s" % r["zero_cov"])
     negative(ctx, "MCTxGuard_neg.cfg", ("GuardSound",))                      # identity = hash over the signature bytes (the code)
     if not ctx.quick():
         negative(ctx, "MCTxGuard_negprune.cfg", ("GuardSound", "WindowSufficient", "TracerComplete"))   # prune 60 s too early
         negative(ctx, "MCTxGuard_negreload.cfg", ("GuardSound", "WindowSufficient", "TracerComplete"))  # reload '<' instead of '<='
+        negative(ctx, "MCTxGuard_reach.cfg", ("NeverPruned",))                                         # vacuity guard: pruning of live-chain blocks is reached
         ctx.tlc_exhaustive("MCTxGuard", "MCTxGuard_thorough.cfg", timeout=1500)                         # 4 blocks, design side only
     files, summ = ctx.replay("txguard", graph=dot, shards=16, maxlen=30, timeout=1800)
     ok = ctx.validate("TraceTxGuard", "TraceTxGuard.cfg", files, what="layer 1: state-graph replay on the real TxGuard", timeout=2400)
@@ -67,7 +70,7 @@ def run(ctx):
     ctx.tlc_exhaustive("MCTxGuardChain", cfg2, timeout=900, dump=dot2)
     negative(ctx, "MCTxGuardChain_negdup.cfg", ("AtMostOnce",), module="MCTxGuardChain")
     negative(ctx, "MCTxGuardChain_negenc.cfg", ("AtMostOnce",), module="MCTxGuardChain")
-    files2, summ2 = ctx.replay("replayprot", graph=dot2, shards=16, maxlen=30, limit=600 if ctx.quick() else 0, timeout=2400)
+    files2, summ2 = ctx.replay("replayprot", graph=dot2, shards=12, maxlen=30, limit=600 if ctx.quick() else 0, timeout=2400)
     ok2 = ctx.validate("TraceTxGuardChain", "TraceTxGuardChain.cfg", files2, what="layer 2: placements offered to the real engine", timeout=1800)
     ctx.extra["l2_transitions_in_graph"] = summ2["graph_edges"]
     ctx.extra["l2_behaviours_replayed"] = "%d of %d" % (summ2["behaviours"], summ2["behaviours_total"])
@@ -75,7 +78,7 @@ def run(ctx):
     # window / pruning / restart-reload boundaries through the engine: 3 offered blocks, small menu
     dot3 = ctx.path("txguardchain_window.dot")
     ctx.tlc_exhaustive("MCTxGuardChain", "MCTxGuardChain_windowq.cfg" if ctx.quick() else "MCTxGuardChain_window.cfg", timeout=900, dump=dot3)
-    filesw, summw = ctx.replay("replayprot", graph=dot3, shards=16, maxlen=30, name="replayprot_window", timeout=2400)
+    filesw, summw = ctx.replay("replayprot", graph=dot3, shards=12, maxlen=30, name="replayprot_window", timeout=2400)
     ctx.validate("TraceTxGuardChain", "TraceTxGuardChain.cfg", filesw, what="layer 2: window/pruning/restart boundaries", timeout=1800)
     ctx.extra["l2_window_behaviours_replayed"] = "%d of %d" % (summw["behaviours"], summw["behaviours_total"])
     # the engine's own miner with a pool filled by the engine's fork bookkeeping (recording driver)
